@@ -131,16 +131,29 @@ def load_bc_block():
     return compile(mod, 'solver.pyx:bc', 'exec')
 
 
+class _FreeEnv(dict):
+    """globals for the sliced block: an unexpected name is a fresh symbol (so that a dependence on it shows up as a sat obligation rather than a crash)"""
+    def __missing__(self, key):
+        import builtins
+        if hasattr(builtins, key):
+            return getattr(builtins, key)
+        v = Q.sym('unexpected_' + key)
+        self[key] = v
+        return v
+
+
 def run_bc(code, solve_for, l, R, rhob):
     from symx.pyx2py import Ref
     last = None
     for wrap in (Ref, lambda x: x):          # scalars whose address is taken elsewhere in cf_radial_solver are transliterated as cells (`.v`)
         bc = CArr((15,), 'boundary_conditions')
-        env = {'solve_for': solve_for, 'bc_pointer': Ptr(bc, 0), 'degree_l_dbl': Fr(l), 'radius_planet_to_use': wrap(R), 'bulk_density_to_use': wrap(rhob), 'max_num_solutions': 5,
-               'num_ytypes': 1, 'len': len}
+        # the caller's DIMENSIONAL radius / bulk density are distinct symbols: the boundary vectors must be built from the *_to_use values (which are the non-dimensional ones when
+        # nondimensionalize=True); any other name read by the block becomes a fresh unrelated symbol instead of a NameError
+        env = _FreeEnv({'solve_for': solve_for, 'bc_pointer': Ptr(bc, 0), 'degree_l_dbl': Fr(l), 'radius_planet_to_use': wrap(R), 'bulk_density_to_use': wrap(rhob), 'max_num_solutions': 5,
+                        'num_ytypes': 1, 'len': len, 'planet_bulk_density': Q.sym('planet_bulk_density_DIMENSIONAL'), 'radius_planet': Q.sym('radius_planet_DIMENSIONAL')})
         env.update(loader.base_ns())
         try:
-            exec(code, env)
+            exec(code, {}, env)
             return bc.data, env.get('solve_for'), env.get('num_ytypes')
         except (AttributeError, TypeError) as e:
             last = e
@@ -303,15 +316,19 @@ def main():
     ls = range(2, 11) if TIER == 'thorough' else (2, 3)
     jobs = []
     for cls in rs.SOLID + rs.LIQUID_DYN + rs.LIQUID_STAT:
-        for l in (ls if TIER == 'thorough' else (2,)):
+        for l in ls:        # l = 3 is in the quick tier too: factors like (l-1) equal 1 at l = 2
             jobs.append((job_ode_scaling, {'cls': cls, 'l': l}))
             jobs.append((job_reciprocity, {'cls': cls, 'l': l}))
+        jobs.append((rs.job_packing, {'cls': cls, 'l': 3}))
     jobs.append((job_roundtrip, {}))
     for l in ls:
         jobs.append((job_bc_and_love, {'l': l}))
     for lo in c02.kinds():
         for up in c02.kinds():
             jobs.append((job_interface_scaling, {'lower': lo, 'upper': up}))
+    # reciprocity at the surface needs each solution type to be collapsed with ITS OWN boundary vector: the C02 surface obligations are part of this claim
+    for t, st in c02.kinds():
+        jobs.append((c02.job_surface, {'ltype': t, 'static': st, 'incomp': False}))
     meta = {
         'explanation': 'nondimensional.pyx (all three cf_ functions), the eight diffeq methods, the bc_pointer construction sliced from cf_radial_solver, cf_solve_upper_y_at_interface and find_love_cf are '
                        'transliterated and executed on symbols (formal-indeterminate mode where the kernel uses field operations only, checked syntactically). z3 decides that the unit scaling is a symmetry '
